@@ -158,11 +158,14 @@ class SchedStream(C.Stream):
             if len(ran) != 1:
                 fails.append(C.Failure("sched/body-not-once", f"task {t}: run/skip invoked {len(ran)} times"))
                 continue
+            # handed to the pool after the interrupt: goes straight to skip_task
             forced = intr is not None and not any(r[0] == "dispatch" and r[1] == t for r in tr[:intr])
-            if not forced:
-                for d in s["succ"] + s["compl"]:
-                    if not pos.get(("receive", d)) or pos[("receive", d)][0] > st[0]:
-                        fails.append(C.Failure("sched/started-before-dependency-completed", f"task {t} started before dependency {d} completed"))
+            # dependency order holds for EVERY task, interrupted run or not (a teardown-like task that is skipped still
+            # does its teardown work: it must not start while a task it depends on is still in flight)
+            for d in s["succ"] + s["compl"]:
+                if not pos.get(("receive", d)) or pos[("receive", d)][0] > st[0]:
+                    fails.append(C.Failure("sched/started-before-dependency-completed",
+                                           f"task {t} started before dependency {d} completed" + (" (after a keyboard interrupt)" if forced else "")))
             bad = [d for d in s["succ"] if obs["results"][str(d)] != "success"]
             if ran[0][0] == "run" and (bad or forced):
                 fails.append(C.Failure("sched/ran-despite-failed-dependency", f"task {t} was run although {bad} did not succeed / forced={forced}"))
